@@ -4,10 +4,10 @@ CONSTANTS MaxWords
 VARIABLES ws
 Words == {[k |-> "attr", v |-> <<1>>], [k |-> "attr", v |-> <<4>>], [k |-> "attr", v |-> <<7>>],
           [k |-> "color", v |-> <<1>>], [k |-> "color", v |-> <<12>>], [k |-> "color", v |-> <<10, 20, 30>>],
-          [k |-> "color", v |-> <<>>], [k |-> "flag", v |-> <<>>]}
+          [k |-> "color", v |-> <<>>], [k |-> "color", v |-> <<Syntax>>], [k |-> "flag", v |-> <<>>]}
 Init == ws = <<>>
 Next == Len(ws) < MaxWords /\ \E w \in Words : ws' = Append(ws, w)
 Spec == Init /\ [][Next]_ws
-\* the slot machine computes the declarative meaning, and rejects exactly the strings with a third colour
+\* the slot machine computes the declarative meaning, and rejects exactly the strings with a third colour or `syntax` as background
 Agree == LET m == Meaning(ws) p == Parse(ws) IN p.ok = m.ok /\ (m.ok => p.fg = m.fg /\ p.bg = m.bg /\ p.at = m.at)
 =============================================================================
